@@ -11,6 +11,9 @@ CLAIMED = {
     "C01": ("exploration",
             "Seeded histories (1-40 operations, thorough up to 200) over the 16 Filespace methods plus buffer-mutation pseudo-operations on the memfs root and child views, paths in random spellings; refinement against ModelTree step by step: result class, then the whole tree walked through the public interface, queries in several spellings through every view, and every earlier returned slice/listing (snapshot clause). Single task, fault-free configuration of the simulator.",
             "Sampling of histories; unspecified cases (listed in the evidence assumptions) are accepted either way and cut the history when the resulting state is not defined by the statement."),
+    "C03": ("exploration",
+            "Bounded sweep plus random beyond: 16 view kinds (memory/disk child views to depth 3, disk root on a private host directory, encrypted children, read-only mask children, sub-path views and views of them, cache children and the cache's read-only buffer view) x 19 operation slots (16 operations, both arguments of the copies) x every path string of 1-3 segments and every 4-segment string containing '..' over {s,d,view,n,OUTSIDE_MARK,.,..,empty}; after each operation the snapshot of everything outside the view's root (host directory included for disk) must be byte-identical, no read may return sentinel bytes or names, no boolean query may reveal an outside node.",
+            "The bounded part is enumerated completely when the run range covers the sweep size (it does in both tiers); longer strings are sampled. Single task; no schedule or fault dimension."),
     "C04": ("fault_enumeration",
             "Stream shape: Writer over absent/shorter/equal/longer prior content with random chunkings, read back through ReadFile and Reader with random buffer sizes and legal short reads, on memory, disk, encrypted (both ciphers, over both bases) and cache backends. Copy shape: random trees copied between every backend pair with StreamCopy / Copier / Copy (real fsloop under the seeded scheduler), destination pre-populated with longer files; a dry run counts the I/O positions on both sides, then every position x applicable fault kind (op-error, read-error, write-error, torn-write, close-error; above the stack or below the encryption) is injected once under the dry run's choices: helper returned nil => destination is a complete byte-exact copy.",
             "Every I/O position of each sampled copy is faulted (every k-th above 80); cases are sampled. No fault below diskfs (no seam)."),
